@@ -178,6 +178,29 @@ def run(ctx):
     if ctx.tier != 'thorough':
         banners = r.sample(banners, 70) + banners[-10:]
     n_peers = ctx.scale(4, 30)
+    # fixed cases first: every name the database lists under more than one category (`none` is a cipher and a MAC), advertised in all of
+    # them at once, for every product — each occurrence is rated on its own and recommended on its own (seeds C13-2, C13-11)
+    multi = sorted(n for n in set().union(*[set(db[c]) for c in rc.CATS]) if sum(n in db[c] for c in rc.CATS) >= 2)
+    fixed = []
+    for n in multi:
+        for bl in ('SSH-2.0-OpenSSH_9.6', 'SSH-2.0-OpenSSH_6.0', 'SSH-2.0-dropbear_2022.83', 'SSH-2.0-dropbear_2013.56', 'SSH-2.0-dropbear_2012.55', 'SSH-2.0-libssh-0.10.6',
+                   'SSH-2.0-PuTTY_Release_0.78', 'SSH-2.0-RomSShell_5.40', 'SSH-2.0-tinyssh_noversion'):
+            peer = pg.gen_peer(r, sizes=True)
+            peer['kex'], peer['key'] = ['curve25519-sha256'], ['ssh-ed25519']
+            peer['encS'] = (['aes256-ctr', n] if n in db['enc'] else ['aes256-ctr'])
+            peer['macS'] = ([n, 'hmac-sha2-256'] if n in db['mac'] else ['hmac-sha2-256'])
+            if n in db['kex']:
+                peer['kex'].append(n)
+            if n in db['key']:
+                peer['key'].append(n)
+            peer['encC'], peer['macC'] = list(peer['encS']), list(peer['macS'])
+            fixed.append((bl, peer))
+    for bl, peer in fixed:
+        imp, recognised, sw, fs = evaluate_case(db, bl, peer, False)
+        failures.extend(fs)
+        cov.add((bl, json.dumps(peer, sort_keys=True)), recognised, tags=['name-in-two-categories'])
+        lines.append(rc.report_line(peer, False, imp['banner']))
+        expect.append((imp, {'banner': bl, 'peer': peer, 'client': False}))
     for bl in banners:
         for _ in range(n_peers):
             peer = pg.gen_peer(r, sizes=True)
